@@ -1,5 +1,6 @@
 import Gallia.Proofs.Lemmas.DoipOps
 import Gallia.Proofs.Lemmas.DoipSysCalls
+import Gallia.Proofs.Lemmas.DoipSysAlive
 import Gallia.Gen.C06Doip
 /-
   C06 — DoIP: frames are demultiplexed correctly under any segmentation and interleaving.
@@ -630,6 +631,17 @@ theorem doip_alive_always_answered (c : Cfg) (yields : Raw → Bool) (ops : List
   have hq := (exec_inv c yields ops {} (Inv_init c)).quiet ho
   rw [← h1', pendItems_none hq]; simp [aliveReqs]
 
+/-- **... at the instant the request is complete.**  Along any execution that leaves the connection open, the
+    alive-check responses written are - one each, in order - stamped with the instants at which the requests became
+    complete (`alog`: determined by the byte stream and the clock alone): zero virtual time between the last byte of a
+    request and its response - in particular within the alive-check time (`aliveCheckMs`, 500 ms) - whether the client
+    is idle, awaiting an acknowledgement or blocked in a read -/
+theorem doip_alive_reply_times (c : Cfg) (yields : Raw → Bool) (ops : List Op)
+    (hopen : (exec c yields {} ops).closed = false) :
+    replies c (exec c yields {} ops).out = (alog [] 0 ops).map (fun t => (t, aliveResp c)) := by
+  have := exec_reply_times c yields ops {} (Inv_init c) hopen
+  simpa [replies] using this
+
 /-- the reader's reply to one alive-check request does not depend on the client state at all: replacing it (another
     phase, mutex held or not) changes nothing in what the reader writes for that frame -/
 theorem doip_alive_reply_ignores_client (c : Cfg) (s : Sys) (raw : Raw) (cl : Client) :
@@ -735,7 +747,8 @@ example :
     let S := exec c (asyncioYields true) {} (.write [0x22, 0xF1] none :: ops)
     S.done = [⟨340, .ack [0x22, 0xF1], .ok⟩, ⟨340, .diag, .msg [0x62, 0xF1]⟩] ∧
       S.queue = [.diag 0x1E 0x0E00 [0x7F]] ∧ S.out.map (·.1) = [0, 300] ∧ S.tr.length = 5 ∧
-      rsafe [] ops ∧ (exec c (asyncioYields true) {} []).client = .idle := by
+      rsafe [] ops ∧ (exec c (asyncioYields true) {} []).client = .idle ∧ S.closed = false ∧
+      alog [] 0 (.write [0x22, 0xF1] none :: ops) = [300] := by
   decide +kernel
 
 /-- an acknowledgement that arrives after the 2 s deadline: the write has ended at 2000 with a connection error, the
